@@ -787,7 +787,7 @@ inst_t!(close_c1_rs20_q_ss11_q01, check_close::<1>([2, 0], &[], [1, 1], &[0, 1])
 inst!(close_c1_rs11_q01_ss00_q, check_close::<1>([1, 1], &[0, 1], [0, 0], &[]));
 inst_t!(close_c1_rs11_q01_ss10_q0, check_close::<1>([1, 1], &[0, 1], [1, 0], &[0]));
 inst!(close_c1_rs11_q01_ss11_q01, check_close::<1>([1, 1], &[0, 1], [1, 1], &[0, 1]));
-inst!(stream_c1_rs00_q_ss00_q, check_stream::<1>([0, 0], &[], [0, 0], &[]));
+inst_t!(stream_c1_rs00_q_ss00_q, check_stream::<1>([0, 0], &[], [0, 0], &[]));
 inst_t!(stream_c1_rs00_q_ss10_q0, check_stream::<1>([0, 0], &[], [1, 0], &[0]));
 inst!(stream_c1_rs00_q_ss11_q01, check_stream::<1>([0, 0], &[], [1, 1], &[0, 1]));
 inst_t!(stream_c1_rs10_q0_ss00_q, check_stream::<1>([1, 0], &[0], [0, 0], &[]));
@@ -796,9 +796,9 @@ inst_t!(stream_c1_rs10_q0_ss11_q01, check_stream::<1>([1, 0], &[0], [1, 1], &[0,
 inst_t!(stream_c1_rs20_q_ss00_q, check_stream::<1>([2, 0], &[], [0, 0], &[]));
 inst_t!(stream_c1_rs20_q_ss10_q0, check_stream::<1>([2, 0], &[], [1, 0], &[0]));
 inst_t!(stream_c1_rs20_q_ss11_q01, check_stream::<1>([2, 0], &[], [1, 1], &[0, 1]));
-inst!(stream_c1_rs11_q01_ss00_q, check_stream::<1>([1, 1], &[0, 1], [0, 0], &[]));
+inst_t!(stream_c1_rs11_q01_ss00_q, check_stream::<1>([1, 1], &[0, 1], [0, 0], &[]));
 inst_t!(stream_c1_rs11_q01_ss10_q0, check_stream::<1>([1, 1], &[0, 1], [1, 0], &[0]));
-inst!(stream_c1_rs11_q01_ss11_q01, check_stream::<1>([1, 1], &[0, 1], [1, 1], &[0, 1]));
+inst_t!(stream_c1_rs11_q01_ss11_q01, check_stream::<1>([1, 1], &[0, 1], [1, 1], &[0, 1]));
 inst_t!(recv_poll_c0_rs00_q_xs00_q, check_recv_poll::<0>([0, 0], &[], [0, 0], &[]));
 inst_t!(recv_drop_c0_rs00_q_xs00_q, check_recv_drop::<0>([0, 0], &[], [0, 0], &[]));
 inst!(recv_poll_c0_rs00_q_xs10_q0, check_recv_poll::<0>([0, 0], &[], [1, 0], &[0]));
